@@ -379,6 +379,10 @@ func decodeKey(d *structDecoder, buf []byte, cursor int64) (int64, *structFieldS
 	k := *(*string)(unsafe.Pointer(&key))
 	field, exists := d.fieldMap[k]
 	if !exists {
+		// no exact match: the lower-cased names are in the map too
+		field, exists = d.fieldMap[strings.ToLower(k)]
+	}
+	if !exists {
 		return cursor, nil, nil
 	}
 	return cursor, field, nil
@@ -662,7 +666,12 @@ func decodeKeyStream(d *structDecoder, s *Stream) (*structFieldSet, string, erro
 		return nil, "", err
 	}
 	k := *(*string)(unsafe.Pointer(&key))
-	return d.fieldMap[k], k, nil
+	field, exists := d.fieldMap[k]
+	if !exists {
+		// no exact match: the lower-cased names are in the map too
+		field = d.fieldMap[strings.ToLower(k)]
+	}
+	return field, k, nil
 }
 
 func (d *structDecoder) DecodeStream(s *Stream, depth int64, p unsafe.Pointer) error {
